@@ -251,9 +251,9 @@ pub fn cfg_strategy(p: &Profile) -> BoxedStrategy<Cfg> {
         pct(50),
         pct(15),
         pct(50),
-        (pct(40), pct(30), 1u8..=2, pct(15)),
+        (pct(40), pct(30), 1u8..=2, pct(15), pct(30)),
     )
-        .prop_map(move |((pool, objects, gates, streams), q, unlock_points, (sp, spv), (po, pov), root_holds, double_wake, gate_keep_all, stream_always_register, unwinding_drops, consumer_probe_polls, (chained_streams, ssw, sswn, guard_syncs))| Cfg {
+        .prop_map(move |((pool, objects, gates, streams), q, unlock_points, (sp, spv), (po, pov), root_holds, double_wake, gate_keep_all, stream_always_register, unwinding_drops, consumer_probe_polls, (chained_streams, ssw, sswn, guard_syncs, stream_wakes_on_drop))| Cfg {
             pool,
             objects,
             gates,
@@ -273,6 +273,7 @@ pub fn cfg_strategy(p: &Profile) -> BoxedStrategy<Cfg> {
             chained_streams,
             stream_self_wakes: if ssw { sswn } else { 0 },
             guard_syncs,
+            stream_wakes_on_drop,
         })
         .boxed()
 }
